@@ -29,6 +29,8 @@ FAILFAST = dict(pkg="./cache/disk", test="TestVerifFailFastRace", name="failfast
 
 CONFIG = dict(pkg="./config", test="TestVerifConfig", name="config", diff=True)
 
+LOAD = dict(pkg="./cache/disk", test="TestVerifLoad", name="load", diff=True, also=["C09", "C04"])
+
 COMMON_TB = [
     "goroutine scheduling, sync.Mutex and the file system are modelled (atomic lock regions, process-visible file state), not verified",
 ]
@@ -66,7 +68,7 @@ PROPS = {
         level_text="Theorems on M2/M4: WriteAndClose / Put acknowledge iff the delivered bytes have the declared length and hash and the stream ended cleanly; a rejected upload leaves index and directory unchanged; per-path corollaries for the server front ends.",
         level_note=NOTE + "server paths are tied by the server-level correspondence runs.", technique=TECH),
     "C04": dict(
-        lean="BR.Props.C04", runs=[DISK, F14], trusted_base=COMMON_TB, assumptions=["tempfile.Create returns a name not present in the directory (O_EXCL)"],
+        lean="BR.Props.C04", runs=[DISK, F14, LOAD], trusted_base=COMMON_TB, assumptions=["tempfile.Create returns a name not present in the directory (O_EXCL)"],
         level_text="Invariant on M4 proved for every sequential history with failures injected at every stage: the regular files are exactly the files of indexed entries plus those queued for removal, each with the recorded length; after draining, directory = index.",
         level_note=NOTE + "concurrent histories via the atomic-lock-region assumption (C07).", technique=TECH),
     "C12": dict(
@@ -112,6 +114,10 @@ PROPS = {
         lean="BR.Props.C19", runs=[CONFIG], trusted_base=COMMON_TB + ["urfave/cli flag parsing, yaml.v3 decoding, net.SplitHostPort and url.Parse are modelled (typed values; address and scheme grammar re-implemented in Lean), not verified"], assumptions=["proxy URLs are drawn from a family on which url.Parse fails only for a missing scheme"],
         level_text="Theorems on M12 whose field tables are computed from the regenerated flag table, flag wiring, yaml tags and defaults: for every comparable assignment of explicitly given settings the flag/environment front end and the YAML front end yield the identical configuration and verdict; each explicitly given wired setting arrives unchanged in its field on both paths; each invalid class of the property is refused for arbitrary values of all other settings. Generated assignments pushed through the real flag parser, the environment and NewFromYaml and compared with each other and with the model.",
         level_note=NOTE + "third-party parsers are exercised by the correspondence run, not modelled byte by byte.", technique=TECH),
+    "C09": dict(
+        lean="BR.Props.C09", runs=[LOAD], trusted_base=COMMON_TB + ["os.ReadDir, os.Rename, atime.Get and the file system's access times are modelled (a list of files with distinct integer access times), not verified"], assumptions=["access times of the files are pairwise distinct (sort.Sort is not stable)"],
+        level_text="Theorems on M6 (loader) over M1 (index): for every population of files with distinct keys and every max_size the index after restart is the longest most recently accessed tail, in access-time order, of the files that individually fit, everything else is removed, the accounting invariant holds, nothing is evicted when the directory fits; with duplicate keys the invariant holds and every file stays tracked. Generated directories (current layout in both storage modes, v1/v0 layouts, duplicates, lost+found) restarted with the real New() and compared with the model and with direct oracles, followed by a forced eviction.",
+        level_note=NOTE + "migration renames and directory scanning are compared on generated populations, not proved.", technique=TECH),
 }
 
 _root = os.path.dirname(os.path.dirname(os.path.abspath(__file__)))
